@@ -249,7 +249,9 @@ def call_builtin(ex, name, args, kw, st, where, env):
         yield from reduce_(ex, args, st, where, env)
         return
     if name in ("uuid4", "uuid.uuid4"):
-        yield fresh(AbstractTy("UUID"), "uuid"), st
+        u = fresh(AbstractTy("UUID"), "uuid")
+        ex.fresh_uuids.append(u.e)
+        yield u, st
         return
     if name in ("Success", "returns.result.Success"):
         yield SuccessV(args[0]), st
